@@ -212,6 +212,8 @@ Definition check_doc (prop : Z) (inp impl : sx) : sx :=
                            else if negb (all2 (fun (r : rund) (ob : irun) => c17_against unit_ (rd_hops r) (ir_hops ob)) (m_runs m) (i_runs d)) then [17; 2] else [])
                         else [])
                      else if prop =? 18 then (if c18_doc (f_rdns fl) rv d then [] else [18])
+                     (* C05: an end-to-end sample of 0 means "no answer", never a 0 ms round trip: the e2e statistics are over the answered probes *)
+                     else if prop =? 5 then (if c16_e2e d then [] else [5; 3])
                      else []
                  end in
           match spec_fail with
